@@ -365,6 +365,86 @@ theorem inv_reach (P : Prog M L C) (hwf : ∀ b ∈ P, WF b) (s : State M C) (h 
   | init => exact inv_init P
   | step _ hs ih => exact inv_step P hwf _ _ _ ih hs
 
+/-- the converse half of the invariant (needs no well-formedness): a mutex owned by thread `t` is in
+`t`'s static lockset -/
+theorem owner_held (P : Prog M L C) (s : State M C) (hr : Reach P s) :
+    ∀ t m, s.owner m = some t → m ∈ heldAt (body P t) (s.pc t) := by
+  induction hr with
+  | init => intro t m h; simp [init] at h
+  | @step s s' t _ hs ih =>
+    unfold step at hs
+    cases ho : opAt P t (s.pc t) with
+    | none => simp [ho] at hs
+    | some o =>
+      have hheld := fun u => held_after P s.pc t u o ho
+      cases o with
+      | lock m0 =>
+        simp only [ho] at hs
+        split at hs
+        · simp only [Option.some.injEq] at hs; subst hs
+          intro u x hx
+          simp only at hx ⊢
+          rw [hheld u]
+          by_cases hxm : x = m0
+          · subst hxm; simp at hx; subst hx; simp [upd]
+          · simp only [if_neg hxm] at hx
+            have := ih u x hx
+            by_cases hut : u = t
+            · subst hut; simp [upd, this]
+            · simp [hut, this]
+        · cases hs
+      | unlock m0 =>
+        simp only [ho, Option.some.injEq] at hs; subst hs
+        intro u x hx
+        simp only at hx ⊢
+        rw [hheld u]
+        by_cases hxm : x = m0
+        · subst hxm; simp at hx
+        · simp only [if_neg hxm] at hx
+          have := ih u x hx
+          by_cases hut : u = t
+          · subst hut; simp [upd, this, hxm]
+          · simp [hut, this]
+      | access l w =>
+        simp only [ho, Option.some.injEq] at hs; subst hs
+        intro u x hx
+        simp only at hx ⊢
+        rw [hheld u]
+        have := ih u x hx
+        by_cases hut : u = t
+        · subst hut; simpa [upd] using this
+        · simpa [hut] using this
+      | close c0 =>
+        simp only [ho] at hs
+        split at hs
+        · cases hs
+        · simp only [Option.some.injEq] at hs; subst hs
+          intro u x hx
+          simp only at hx ⊢
+          rw [hheld u]
+          have := ih u x hx
+          by_cases hut : u = t
+          · subst hut; simpa [upd] using this
+          · simpa [hut] using this
+      | recv c0 =>
+        simp only [ho] at hs
+        split at hs
+        · simp only [Option.some.injEq] at hs; subst hs
+          intro u x hx
+          simp only at hx ⊢
+          rw [hheld u]
+          have := ih u x hx
+          by_cases hut : u = t
+          · subst hut; simpa [upd] using this
+          · simpa [hut] using this
+        · cases hs
+
+/-- **the invariant of the proof**: in every reachable state, a mutex is in a thread's static lockset
+exactly when that thread owns it -/
+theorem held_iff_owner (P : Prog M L C) (hwf : ∀ b ∈ P, WF b) (s : State M C) (hr : Reach P s) (t : Nat) (m : M) :
+    m ∈ heldAt (body P t) (s.pc t) ↔ s.owner m = some t :=
+  ⟨(inv_reach P hwf s hr).held t m, owner_held P s hr t m⟩
+
 /-- **No race state** — for every program (any number of threads, any bodies that only
 unlock what they hold) that keeps the discipline, in every state reachable by any
 interleaving of any length, no two different threads are both at conflicting accesses. -/
